@@ -267,19 +267,21 @@ class AsyncFIXConnection:
             f" {repr(msg.msg_type)}\n\t {msg_raw.decode('latin-1')}\n"
         )
 
+        if not (
+            msg.get(FTag.PossDupFlag, None) == "Y"
+            or (
+                msg.msg_type == FMsg.SEQUENCERESET
+                and msg.get(FTag.GapFillFlag, None) == "Y"
+            )
+        ):
+            # journal first: a number that reached the wire is never allocated again
+            # (replies to a ResendRequest: the journal keeps the original messages)
+            self._journaler.persist_msg(
+                encoded_msg, self._session, MessageDirection.OUTBOUND
+            )
+
         self._socket_writer.write(encoded_msg)
         await self._socket_writer.drain()
-
-        if msg.get(FTag.PossDupFlag, None) == "Y" or (
-            msg.msg_type == FMsg.SEQUENCERESET
-            and msg.get(FTag.GapFillFlag, None) == "Y"
-        ):
-            # replies to a ResendRequest: the journal keeps the original messages
-            return
-
-        self._journaler.persist_msg(
-            encoded_msg, self._session, MessageDirection.OUTBOUND
-        )
 
     async def send_test_req(self):
         """Sends TestRequest(35=1) and sets TestReqID for expected response from peer.
